@@ -31,6 +31,18 @@ func (l *Lexer) NewTokenAt(tokenType token.Type, literal string, startLine, star
 	}
 }
 
+// stringToken builds the token for a scanned string literal; a literal that
+// is still open at the end of the input is not a string but an illegal token,
+// so that the parser reports it.
+func (l *Lexer) stringToken(tokenType token.Type, startLine, startColumn int) func(string, bool) token.Token {
+	return func(literal string, terminated bool) token.Token {
+		if !terminated {
+			tokenType = token.ILLEGAL
+		}
+		return l.NewTokenAt(tokenType, literal, startLine, startColumn)
+	}
+}
+
 func baseNextToken(l *Lexer) token.Token {
 	var tok token.Token
 	// Start of the token, captured before a two-character operator advances the cursor
@@ -137,15 +149,15 @@ func baseNextToken(l *Lexer) token.Token {
 	case '"':
 		// Capture position BEFORE reading the string
 		startLine, startColumn := l.Line, l.Column
-		tok = l.NewTokenAt(token.STRING, l.readString('"'), startLine, startColumn)
+		tok = l.stringToken(token.STRING, startLine, startColumn)(l.readString('"'))
 	case '\'':
 		// Capture position BEFORE reading the string
 		startLine, startColumn := l.Line, l.Column
-		tok = l.NewTokenAt(token.STRING, l.readString('\''), startLine, startColumn)
+		tok = l.stringToken(token.STRING, startLine, startColumn)(l.readString('\''))
 	case '`':
 		// Capture position BEFORE reading the raw string
 		startLine, startColumn := l.Line, l.Column
-		tok = l.NewTokenAt(token.RAW_STRING, l.readRawString(), startLine, startColumn)
+		tok = l.stringToken(token.RAW_STRING, startLine, startColumn)(l.readRawString())
 	case 0:
 		if l.atEnd() {
 			tok = l.NewToken(token.EOF, "")
